@@ -380,6 +380,11 @@ class Exec:
         if m and m.group(1) in INTTY:
             lo, hi = INTTY[m.group(1)]
             return z3.IntVal(hi if m.group(2) == 'MAX' else lo)
+        m = re.fullmatch(r'(?:(?:core|std)::num::)?NonZero::<(\w+)>::(MAX|MIN)', s) or re.fullmatch(r'(?:(?:core|std)::num::)?NonZero([IU]\d+|[IU]size)::(MAX|MIN)', s)
+        if m and m.group(1).lower() in INTTY:
+            # NonZero<T> is Struct([value]); MIN of an unsigned type is 1 (of a signed type: T::MIN)
+            lo, hi = INTTY[m.group(1).lower()]
+            return Struct([z3.IntVal(hi if m.group(2) == 'MAX' else (1 if lo == 0 else lo))])
         if s.startswith('"') or s.startswith('b"'):
             return Opaque('str:' + s[:60])
         if s.startswith("'"):
@@ -394,10 +399,11 @@ class Exec:
         return self.const_named(s, st)
 
     def const_named(self, name, st):
-        if name in self.const_cache:
-            return self.const_cache[name]
+        key = (name, getattr(self, '_cur_crate', None))
+        if key in self.const_cache:
+            return self.const_cache[key]
         v = self._const_named(name, st)
-        self.const_cache[name] = v
+        self.const_cache[key] = v
         return v
 
     def _const_named(self, name, st):
@@ -438,6 +444,11 @@ class Exec:
                 cands = ex
         if len(cands) > 1 and all(c.blocks == cands[0].blocks and c.val == cands[0].val for c in cands[1:]):
             cands = cands[:1]
+        if len(cands) > 1 and getattr(self, '_cur_crate', None):
+            # same name in several crates: a path that does not name a crate refers to the crate of the code being executed
+            own = [f for f in cands if getattr(f, 'crate', None) == self._cur_crate]
+            if len(own) == 1:
+                cands = own
         if not cands:
             # function items and other zero-sized named constants
             return Opaque('item:' + name)
@@ -468,6 +479,7 @@ class Exec:
         if s.startswith('copy ') or s.startswith('move '):
             return self.load(st, fr, parse_place(s[5:]))
         if s.startswith('const '):
+            self._cur_crate = getattr(self, 'frame_crate', {}).get(fr)
             return self.const(s[6:], st)
         if re.fullmatch(r'[A-Za-z_][\w:<>, ]*', s) and not re.fullmatch(r'_\d+', s):
             # a function item used as a value (e.g. `Result::map(x, backdate)`)
@@ -508,7 +520,7 @@ class Exec:
         n, d = q.numerator, q.denominator
         return (n & (n - 1)) == 0 and (d & (d - 1)) == 0
 
-    def fbin(self, op, a, b):
+    def fbin(self, op, a, b, p=53):
         if isinstance(a, FConst) and isinstance(b, FConst):
             import math
             fa, fb = float(a.q), float(b.q)
@@ -524,7 +536,7 @@ class Exec:
             if q > 0 and q.denominator == 1 and self._pow2(q):
                 return FMono(a.num + [z3.IntVal(q.numerator)], a.den, a.k, a.p)
         if op == 'Mul' and isinstance(b, FMono) and isinstance(a, FConst):
-            return self.fbin(op, b, a)
+            return self.fbin(op, b, a, p)
         if op == 'Mul' and isinstance(a, FMono) and isinstance(b, FMono):
             return FMono(a.num + b.num, a.den * b.den, a.k + b.k + 1, min(a.p, b.p))
         if op in ('Add', 'Sub', 'Mul', 'Div'):
@@ -534,9 +546,9 @@ class Exec:
                 raise EngineError('float division by a symbolic value')
             xa, xb = self.to_lin(a), self.to_lin(b)
             if op == 'Add':
-                return FLin(self.rounded(xa + xb))
+                return FLin(self.rounded(xa + xb, p))
             if op == 'Sub':
-                return FLin(self.rounded(xa - xb))
+                return FLin(self.rounded(xa - xb, p))
             c = b if isinstance(b, FConst) else a
             other = xa if isinstance(b, FConst) else xb
             q = c.q if op == 'Mul' else 1 / c.q
@@ -545,8 +557,8 @@ class Exec:
                 return FLin(ex)      # scaling by a power of two is exact (no underflow in the stated domain)
             if op == 'Div':
                 # x / c is not x * (1/c) in binary64, but both are within one rounding of the exact quotient
-                return FLin(self.rounded(other / z3.RealVal(str(c.q))))
-            return FLin(self.rounded(ex))
+                return FLin(self.rounded(other / z3.RealVal(str(c.q)), p))
+            return FLin(self.rounded(ex, p))
         if op in ('Lt', 'Le', 'Gt', 'Ge', 'Eq', 'Ne'):
             xa, xb = self.to_lin(a), self.to_lin(b)
             return {'Lt': xa < xb, 'Le': xa <= xb, 'Gt': xa > xb, 'Ge': xa >= xb, 'Eq': xa == xb, 'Ne': xa != xb}[op]
@@ -776,7 +788,16 @@ class Exec:
 
     def binop(self, op, a, b, dest_ty, st, fn, parts=None):
         if is_float(a) or is_float(b):
-            return self.fbin(op, a, b)
+            # binary32 arithmetic rounds at 24 bits: the destination type, a constant's suffix or an operand's declared type says so
+            p = 53
+            if (dest_ty or '').strip() == 'f32' or any(re.search(r'f32$', x.strip()) for x in (parts or [])):
+                p = 24
+            else:
+                for x in (parts or []):
+                    mm = re.match(r'(?:copy|move) (_\d+)$', x.strip())
+                    if mm and fn is not None and fn.ltypes.get(mm.group(1), '').strip() == 'f32':
+                        p = 24
+            return self.fbin(op, a, b, p)
         if isinstance(a, Ptr) and op == 'Offset':
             raise EngineError('Offset on segment pointer')
         if isinstance(a, (Opaque, Ptr, Ref)) or isinstance(b, (Opaque, Ptr, Ref)):
@@ -1025,6 +1046,9 @@ class Exec:
         outcome states unless top=True."""
         if fr is None:
             fr = self.new_frame()
+        if not hasattr(self, 'frame_crate'):
+            self.frame_crate = {}
+        self.frame_crate[fr] = getattr(fn, 'crate', None)
         for p, a in zip(fn.params, args):
             st.mem[(fr, p)] = a
         if tybind:
